@@ -166,6 +166,46 @@ def family_f2():
     return out
 
 
+# ---- F5: two accesses through the SAME mutable view, the first one still alive
+VIEW_ACQ = {
+    "iter_mut": "let a = v.iter_mut();",
+    "values_mut": "let a = v.values_mut();",
+    "value_mut": "let a = v.value_mut();",
+    "prefix_value_mut": "let a = v.prefix_value_mut();",
+    "iter_mut_items": "let a: Vec<_> = v.iter_mut().collect();",
+    "union_mut": "let a = v.union_mut(m2.view_mut());",
+    "intersection_mut": "let a = v.intersection_mut(m2.view_mut());",
+    "difference_mut": "let a = v.difference_mut(&m3);",
+    "covering_difference_mut": "let a = v.covering_difference_mut(&m3);",
+    "shared_view": "let a = (&v).view();",
+    "shared_view_iter": "let a = (&v).view().iter();",
+}
+VIEW_CONFLICT = {
+    "iter_mut": "let b = v.iter_mut();",
+    "values_mut": "let b = v.values_mut();",
+    "value_mut": "let b = v.value_mut();",
+    "prefix_value_mut": "let b = v.prefix_value_mut();",
+    "remove": "let b = v.remove();",
+    "set": "let b = v.set(7);",
+    "left": "let b = v.left();",
+    "split": "let b = v.split();",
+    "into_iter": "let b = v.into_iter();",
+    "union_mut": "let mut m4 = mk(); let b = v.union_mut(m4.view_mut());",
+}
+
+
+def family_f5():
+    out = []
+    for an, a in VIEW_ACQ.items():
+        for bn, b in VIEW_CONFLICT.items():
+            head = "    let mut m = mk();\n    let mut m2 = mk();\n    let m3 = mk();\n    let mut v = m.view_mut();\n"
+            bad = prog(head + f"    {a}\n    {b}\n    drop(a);")
+            ctl = prog(head + f"    {a}\n    drop(a);\n    {b}")
+            out.append({"name": f"f5-{an}-then-{bn}", "bad": bad, "control": ctl, "codes": BORROW_CODES,
+                        "what": f"`{a}` on a TrieViewMut kept alive across `{b}` on the same view"})
+    return out
+
+
 # ---- F3: thread crossing
 def family_f3():
     out = []
@@ -271,7 +311,7 @@ def family_f4():
 
 
 def all_programs():
-    return family_f1() + family_f2() + family_f3() + family_f4()
+    return family_f1() + family_f2() + family_f3() + family_f4() + family_f5()
 
 
 # ------------------------------------------------------------------------------------------------
